@@ -85,7 +85,7 @@ theorem recent_eq (s : State) (n : Int) :
   intro a _; simp
 
 theorem effLimit_pos (n : Int) : 1 ≤ effLimit n := by
-  unfold effLimit Gen.History.viewDefault
+  unfold effLimit Gen.History.recentDefault
   split <;> omega
 
 /-! ### frequency table -/
@@ -258,7 +258,7 @@ theorem qfBefore_trans (a b c : QF) (h1 : qfBefore b a = false) (h2 : qfBefore c
 def TopSpec (es : List Entry) (lim : Nat) (r : List QF) : Prop :=
   ∃ l : List QF, l.Perm (freqTable es) ∧ l.Pairwise (fun a b => qfBefore b a = false) ∧ r = l.take lim
 
-theorem top_topSpec (s : State) (n : Int) : TopSpec s.entries (effLimit n) (top s n) :=
+theorem top_topSpec (s : State) (n : Int) : TopSpec s.entries (effLimitTop n) (top s n) :=
   ⟨sortBy qfBefore (freqTable s.entries), sortBy_perm _ _, sortBy_sorted qfBefore qfBefore_asym qfBefore_trans _, rfl⟩
 
 theorem topSpec_props {es : List Entry} {lim : Nat} {r : List QF} (h : TopSpec es lim r) :
